@@ -15,6 +15,7 @@ import (
 	"github.com/siglens/siglens/pkg/segment/query/iqr"
 	"github.com/siglens/siglens/pkg/segment/structs"
 	sutils "github.com/siglens/siglens/pkg/segment/utils"
+	"github.com/siglens/siglens/pkg/utils"
 )
 
 const (
@@ -240,4 +241,72 @@ func VerifTailProcess(n uint64, batches [][]sutils.CValueEnclosure, idCol string
 		return nil, nil
 	}
 	return out.ReadColumn(idCol)
+}
+
+
+// ---------------------------------------------------------------------------
+// sort-index route of the searcher (round j)
+// ---------------------------------------------------------------------------
+
+// VerifSortIdxRec is one record handed by the searcher to the rest of the pipeline.
+type VerifSortIdxRec struct {
+	Seg   int    `json:"seg"`
+	Block uint16 `json:"b"`
+	Rec   uint16 `json:"r"`
+}
+
+// VerifDrainSortIndexSearcher runs the real Searcher.fetchColumnSortedRRCs (quota =
+// max(100, limit/#segments) unless batch > 0) over segments that have a sort index for the
+// first sort field, for a match-all query whose time range encloses the segments - the state
+// the searcher of a non-parallel `sort` query is in - until io.EOF.
+func VerifDrainSortIndexSearcher(segKeys []string, fields []string, ops []string, asc []bool,
+	limit uint64, batch int, maxFetches int) (batches [][]VerifSortIdxRec, eof bool, err error) {
+
+	tr := &dtu.TimeRange{StartEpochMs: 0, EndEpochMs: 1 << 62}
+	qsrs := make([]*query.QuerySegmentRequest, 0, len(segKeys))
+	segIdx := make(map[string]int)
+	for i, k := range segKeys {
+		qsr := &query.QuerySegmentRequest{}
+		qsr.SetSegKey(k)
+		qsr.SetTimeRange(tr)
+		qsrs = append(qsrs, qsr)
+		segIdx[k] = i
+	}
+	queryInfo := &query.QueryInformation{}
+	queryInfo.SetSearchNodeType(structs.MatchAllQuery)
+	queryInfo.SetQueryTimeRange(tr)
+	eles := make([]*structs.SortElement, len(fields))
+	for i := range fields {
+		eles[i] = &structs.SortElement{Field: fields[i], Op: ops[i], SortByAsc: asc[i]}
+	}
+	s := &Searcher{
+		sortIndexState: sortIndexState{numRecordsPerBatch: batch},
+		queryInfo:      queryInfo,
+		sortExpr:       &structs.SortExpr{SortEles: eles, Limit: limit},
+		segEncToKey:    utils.NewTwoWayMap[uint32, string](),
+		qsrs:           qsrs,
+	}
+	for i := 0; i < maxFetches; i++ {
+		res, ferr := s.fetchColumnSortedRRCs()
+		if ferr != nil && ferr != io.EOF {
+			return batches, false, ferr
+		}
+		if res != nil && res.NumberOfRecords() > 0 {
+			encToKey := s.segEncToKey.GetMapCopy()
+			var b []VerifSortIdxRec
+			for _, rrc := range res.GetRRCs() {
+				k, ok := encToKey[rrc.SegKeyInfo.SegKeyEnc]
+				si := -1
+				if ok {
+					si = segIdx[k]
+				}
+				b = append(b, VerifSortIdxRec{Seg: si, Block: rrc.BlockNum, Rec: rrc.RecordNum})
+			}
+			batches = append(batches, b)
+		}
+		if ferr == io.EOF {
+			return batches, true, nil
+		}
+	}
+	return batches, false, nil
 }
